@@ -57,18 +57,31 @@ def rule_R1_logs(text, log):
 
 
 def rule_R2_vis(text, log):
-    """pub(super) / pub(in ..) / pub(crate) -> pub"""
+    """visibility qualifiers are dropped (everything lives in one module)"""
     mask = code_mask(text)
 
     def rep(mm):
         if not mask[mm.start()]:
             return mm.group(0)
-        log.append(('R2', mm.group(0), 'pub'))
-        return 'pub'
-    return re.sub(r'\bpub\s*\(\s*(?:super|crate|self|in\s+[\w:]+)\s*\)', rep, text)
+        log.append(('R2', norm_ws(mm.group(0)), ''))
+        return ''
+    return re.sub(r'\bpub\b(?:\s*\(\s*(?:super|crate|self|in\s+[\w:]+)\s*\))?[ \t]*', rep, text)
 
 
 _KEEP_DERIVES = ('Copy', 'Clone', 'PartialEq', 'Eq')
+
+
+def _is_c_like_enum(text, pos):
+    """is the item that follows offset pos an enum without payload-carrying variants?"""
+    mm = re.compile(r'(?:\s|#\s*\[[^\]]*\]|///[^\n]*\n|pub(?:\s*\([^)]*\))?)*\s*enum\s+\w+\s*\{').match(text, pos)
+    if not mm:
+        return False
+    mask = code_mask(text)
+    ob = mm.end() - 1
+    cb = match_brace(text, mask, ob)
+    body = ''.join(c for k, c in enumerate(text[ob + 1:cb]) if mask[ob + 1 + k])
+    body = re.sub(r'#\s*\[[^\]]*\]', '', body)
+    return '(' not in body and '{' not in body
 
 
 def rule_attrs(text, log):
@@ -92,7 +105,8 @@ def rule_attrs(text, log):
         name = re.match(r'\s*([\w:]+)', inner).group(1)
         if name == 'derive':
             dm = re.match(r'\s*derive\s*\((.*)\)\s*$', inner, re.S)
-            kept = [d.strip() for d in dm.group(1).split(',') if d.strip().split('::')[-1] in _KEEP_DERIVES]
+            keep = _KEEP_DERIVES if _is_c_like_enum(out, cl + 1) else (('Copy', 'Clone') if re.search(r'\bCopy\b', dm.group(1)) else ())
+            kept = [d.strip() for d in dm.group(1).split(',') if d.strip().split('::')[-1] in keep]
             new = ('#[derive(%s)]' % ', '.join(kept)) if kept else ''
             if '\n' in out[mm.start():cl + 1]:
                 new = new + '\n' * out[mm.start():cl + 1].count('\n')
@@ -272,6 +286,8 @@ R6_TABLE = [
     (r'\.map_err\(\|_\| EncodeError::InvalidLength\)', '.vx_map_err_invalid_length()'),
     (r'\.map_err\(\|\(\)\| DecodeError::Utf8Error\)', '.vx_map_err_utf8()'),
     (r'\.map_or\(0, Bytes::len\)', '.vx_map_or_0_len()'),
+    (r'\(\*cb\)\(', 'cb.vx_call('),
+    (r'Box<dyn Fn\(([^()]*)\)>', r'VxBoxFn<(\1)>'),
     (r'\.map_or\(0, \|v\| 1 \+ v\.encoded_size\(\)\)', '.vx_map_or_0_1_plus_encoded_size()'),
 ]
 
@@ -285,9 +301,49 @@ def rule_R6_redirects(text, log):
             mm = next((m for m in rx.finditer(out) if mask[m.start()]), None)
             if not mm:
                 break
-            log.append(('R6', mm.group(0), rep))
-            out = out[:mm.start()] + rep + out[mm.end():]
+            new = mm.expand(rep)
+            log.append(('R6', mm.group(0), new))
+            out = out[:mm.start()] + new + out[mm.end():]
     return out
+
+
+def rule_R10_inspect_err(text, log):
+    """E.inspect_err(|_| { B })  ->  { let vx_r = E; if vx_r.is_err() { B } vx_r }
+    (definition of Result::inspect_err for a closure that ignores its argument);
+    E is the whole expression statement that precedes `.inspect_err`"""
+    out = text
+    while True:
+        mask = code_mask(out)
+        mm = next((m for m in re.finditer(r'\.inspect_err\(\|_\|\s*\{', out) if mask[m.start()]), None)
+        if not mm:
+            return out
+        ob = mm.end() - 1
+        cb = match_brace(out, mask, ob)
+        k = cb + 1
+        while out[k].isspace():
+            k += 1
+        if out[k] != ')':
+            raise Unsupported('R10: unexpected inspect_err shape')
+        # receiver: back to the start of the expression = after previous '{' or ';' at same depth
+        j = mm.start() - 1
+        depth = 0
+        while j >= 0:
+            if mask[j]:
+                c = out[j]
+                if c in ')]}':
+                    depth += 1
+                elif c in '([{':
+                    if depth == 0:
+                        break
+                    depth -= 1
+                elif c == ';' and depth == 0:
+                    break
+            j -= 1
+        recv = out[j + 1:mm.start()]
+        lead = re.match(r'\s*', recv).group(0)
+        new = lead + '{ let vx_r = ' + recv.strip() + '; if vx_r.is_err() ' + out[ob:cb + 1] + ' vx_r }'
+        log.append(('R10', norm_ws(out[j + 1:k + 1])[:100], norm_ws(new)[:100]))
+        out = out[:j + 1] + new + out[k + 1:]
 
 
 def rule_selfmut(sig, log):
@@ -319,7 +375,7 @@ class Unit(object):
         self.clauses = []           # dict(fn, section, label, props, text)
         self.items = []             # extracted non-fn items
         self.cells = {}             # type -> [fields]
-        self.rules = set(['R1', 'R2', 'ATTR', 'R4', 'R6'])
+        self.rules = set(['R1', 'R2', 'ATTR', 'R4', 'R5', 'R6', 'R10'])
         self.unit_props = []
         self.lemmas = []
         self.tmpl_fns = []          # hand-written exec/proof fns in template (name, props)
@@ -359,6 +415,8 @@ class Unit(object):
                 text = rule_R3_cells_struct(text, fields, log)
             else:
                 text = rule_R3_cells_body(text, fields, log)
+        if is_struct and 'R6' in self.rules:
+            text = rule_R6_redirects(text, log)
         if not is_struct:
             if 'R4' in self.rules:
                 text = rule_R4_letchains(text, log)
@@ -366,6 +424,8 @@ class Unit(object):
                 text = rule_R5_labelled_for(text, log)
             if 'R6' in self.rules:
                 text = rule_R6_redirects(text, log)
+            if 'R10' in self.rules:
+                text = rule_R10_inspect_err(text, log)
         for r in log:
             self.rule_log.append({'rule': r[0], 'before': r[1], 'after': r[2], 'where': ctx})
         return text
@@ -529,6 +589,17 @@ def process_template(unit, tmpl_path, prelude_dir):
                 else:
                     unit.rules.add(r.lstrip('+'))
             i += 1
+        elif d.startswith('item+ '):
+            j = i + 1
+            ghosts = []
+            while j < n and lines[j].strip() != '//@end':
+                g = lines[j].strip()
+                if not g.startswith('//@ ghost '):
+                    raise Unsupported('%s:%d: only `//@ ghost <field>: <type>` lines allowed in //@item+' % (tmpl_path, j + 1))
+                ghosts.append(g[len('//@ ghost '):].strip())
+                j += 1
+            emit_item(unit, d[6:], {'ghosts': ghosts})
+            i = j + 1
         elif d.startswith('item '):
             opts = {}
             loc = d[5:]
@@ -565,7 +636,19 @@ def emit_item(unit, loc, opts):
     text = src[start:it.end]
     if it.kind == 'macro_call':
         text = expand_macro(unit, it, src, rel)
-    text = unit.rewrite(text, '%s :: %s' % (rel, ' :: '.join(path)), is_struct=(it.kind in ('struct', 'enum')))
+    if it.kind != 'macro_call':
+        text = unit.rewrite(text, '%s :: %s' % (rel, ' :: '.join(path)), is_struct=(it.kind in ('struct', 'enum')))
+    if opts.get('ghosts'):
+        k = text.rstrip().rfind('}')
+        add = ''.join(' pub ghost %s,' % g for g in opts['ghosts'])
+        text = text[:k] + add + ' ' + text[k:]
+        for g in opts['ghosts']:
+            unit.rule_log.append({'rule': 'GHOST', 'before': '', 'after': 'ghost field ' + g, 'where': loc})
+    if 'pub' in opts:
+        mm = re.search(r'\b(struct|enum|fn|const|type|trait)\b', text)
+        text = text[:mm.start()] + 'pub ' + text[mm.start():]
+        if it.kind == 'struct':
+            text = re.sub(r'(\n\s*)([a-z_][a-z0-9_]*\s*:)', r'\1pub \2', text)
     if 'strip_vis' in opts:
         text = re.sub(r'^\s*pub(\([^)]*\))?\s+', '', text)
     line = line_of(src, start)
@@ -637,21 +720,66 @@ def expand_macro(unit, it, src, rel):
             raise Unsupported('bitflags! shape')
         sname, ty = mm.group(1), mm.group(2)
         consts = re.findall(r'const\s+(\w+)\s*=\s*(0x[0-9A-Fa-f_]+|0b[01_]+|\d+)\s*;', mm.group(3))
-        out = ['#[derive(Copy, Clone, PartialEq, Eq)]', 'pub struct %s { pub bits: %s }' % (sname, ty), 'impl %s {' % sname]
+        def lit(v):
+            return int(v.replace('_', ''), 0)
+        out = ['#[derive(Copy, Clone, PartialEq, Eq)]', 'pub struct %s { pub bits: %s }' % (sname, ty)]
+        out.append('pub open spec fn fl_has(b: %s, m: %s) -> bool { b & m == m }' % (ty, ty) if not getattr(unit, '_fl_has_' + ty, False) else '')
+        setattr(unit, '_fl_has_' + ty, True)
+        out.append('impl %s {' % sname)
         allbits = ' | '.join(val for _, val in consts)
+        allv = 0
         for c, val in consts:
+            allv |= lit(val)
             out.append('    pub const %s: %s = %s { bits: %s };' % (c, sname, sname, val))
-        out.append('    pub open spec fn all_bits() -> %s { %s }' % (ty, allbits))
+        out.append('    pub open spec fn all_bits() -> %s { %d%s }' % (ty, allv, ty))
         out.append('    pub fn bits(&self) -> (r: %s) ensures r == self.bits { self.bits }' % ty)
         out.append('    pub fn empty() -> (r: Self) ensures r.bits == 0 { %s { bits: 0 } }' % sname)
-        out.append('    pub fn contains(&self, other: Self) -> (r: bool) ensures r == (self.bits & other.bits == other.bits) { self.bits & other.bits == other.bits }')
-        out.append('    pub fn insert(&mut self, other: Self) ensures final(self).bits == old(self).bits | other.bits { self.bits = self.bits | other.bits; }')
-        out.append('    pub fn remove(&mut self, other: Self) ensures final(self).bits == old(self).bits & !other.bits { self.bits = self.bits & !other.bits; }')
-        out.append('    pub fn from_bits_truncate(bits: %s) -> (r: Self) ensures r.bits == bits & (%s) { %s { bits: bits & (%s) } }' % (ty, allbits, sname, allbits))
-        out.append('    pub fn from_bits(bits: %s) -> (r: Option<Self>) ensures r == (if bits & !(%s as %s) == 0 { Some(%s { bits }) } else { None::<%s> }) { if bits & !(%s) == 0 { Some(%s { bits }) } else { None } }' % (ty, '(' + allbits + ')', ty, sname, sname, allbits, sname))
+        out.append('    pub fn contains(&self, other: Self) -> (r: bool) ensures r == fl_has(self.bits, other.bits) { self.bits & other.bits == other.bits }')
+        out.append('    pub fn insert(&mut self, other: Self)')
+        out.append('        ensures final(self).bits == old(self).bits | other.bits, fl_has(final(self).bits, other.bits),')
+        out.append('            forall|m: %s| #![trigger fl_has(final(self).bits, m)] (m & other.bits == 0) ==> (fl_has(final(self).bits, m) == fl_has(old(self).bits, m)),' % ty)
+        out.append('    {')
+        out.append('        let ghost o = self.bits; let ghost p = other.bits;')
+        out.append('        self.bits = self.bits | other.bits;')
+        out.append('        let ghost n = self.bits;')
+        out.append('        assert(fl_has(n, p)) by (bit_vector) requires n == o | p;')
+        out.append('        assert forall|m: %s| #![trigger fl_has(n, m)] (m & p == 0) implies (fl_has(n, m) == fl_has(o, m)) by {' % ty)
+        out.append('            assert((m & p == 0) ==> ((o | p) & m == m) == (o & m == m)) by (bit_vector);')
+        out.append('        }')
+        out.append('    }')
+        out.append('    pub fn remove(&mut self, other: Self)')
+        out.append('        ensures final(self).bits == old(self).bits & !other.bits, other.bits != 0 ==> !fl_has(final(self).bits, other.bits),')
+        out.append('            forall|m: %s| #![trigger fl_has(final(self).bits, m)] (m & other.bits == 0) ==> (fl_has(final(self).bits, m) == fl_has(old(self).bits, m)),' % ty)
+        out.append('    {')
+        out.append('        let ghost o = self.bits; let ghost p = other.bits;')
+        out.append('        self.bits = self.bits & !other.bits;')
+        out.append('        let ghost n = self.bits;')
+        out.append('        assert(p != 0 ==> !fl_has(n, p)) by (bit_vector) requires n == o & !p;')
+        out.append('        assert forall|m: %s| #![trigger fl_has(n, m)] (m & p == 0) implies (fl_has(n, m) == fl_has(o, m)) by {' % ty)
+        out.append('            assert((m & p == 0) ==> ((o & !p) & m == m) == (o & m == m)) by (bit_vector);')
+        out.append('        }')
+        out.append('    }')
+        out.append('    pub fn from_bits_truncate(bits: %s) -> (r: Self) ensures r.bits == bits & %d%s { %s { bits: bits & %d } }' % (ty, allv, ty, sname, allv))
+        out.append('    pub fn from_bits(bits: %s) -> (r: Option<Self>) ensures r == (if bits & !%d%s == 0 { Some(%s { bits }) } else { None::<%s> }) { if bits & !%d%s == 0 { Some(%s { bits }) } else { None } }' % (ty, allv, ty, sname, sname, allv, ty, sname))
+        out.append('}')
+        # pairwise disjointness facts (literals only), each discharged by bit_vector
+        facts = []
+        for i1, (c1, v1) in enumerate(consts):
+            for i2, (c2, v2) in enumerate(consts):
+                if i1 != i2 and lit(v1) & lit(v2) == 0:
+                    facts.append((c1, c2, lit(v1), lit(v2)))
+        out.append('pub proof fn %s_disjoint()' % sname)
+        out.append('    ensures')
+        for c1, c2, _, _ in facts:
+            out.append('        %s::%s.bits & %s::%s.bits == 0,' % (sname, c1, sname, c2))
+        for c, val in consts:
+            out.append('        %s::%s.bits != 0,' % (sname, c))
+        out.append('{')
+        for c1, c2, v1, v2 in facts:
+            out.append('    assert(%d%s & %d%s == 0) by (bit_vector);' % (v1, ty, v2, ty))
         out.append('}')
         unit.rule_log.append({'rule': 'R7', 'before': 'bitflags! { struct %s: %s .. }' % (sname, ty),
-                              'after': 'struct + consts + contains/insert/remove/bits/from_bits[_truncate] (%d flags)' % len(consts),
+                              'after': 'struct + consts + contains/insert/remove/bits/empty/from_bits[_truncate] (%d flags); bodies verified against their bit-level contracts' % len(consts),
                               'where': rel})
         return '\n'.join(out)
     raise Unsupported('macro invocation %s! cannot be expanded' % it.name)
@@ -704,6 +832,11 @@ def emit_fn(unit, loc, dlines, tmpl_where):
             trusted = True
         elif head == 'attr':
             attrs.append(s[5:])
+        elif head == 'desugar_q':
+            mm = re.match(r'desugar_q\s+`(.*)`\s*$', s)
+            if not mm:
+                raise Unsupported('%s: bad desugar_q %r' % (tmpl_where, s))
+            sections.append(['desugar_q', mm.group(1), []])
         elif head == 'sigsub':
             mm = re.match(r'sigsub\s+`(.*)`\s*=>\s*`(.*)`\s*$', s)
             if not mm:
@@ -733,6 +866,19 @@ def emit_fn(unit, loc, dlines, tmpl_where):
     # ---- rewrite
     ctx = '%s :: %s' % (rel, ' :: '.join(path))
     text = unit.rewrite(text, ctx)
+    for sec in sections:
+        if sec[0] == 'desugar_q':
+            # R12: `E?` -> match E { Ok(v) => v, Err(e) => return Err(From::from(e)) }  (definition of `?`)
+            toks = [re.escape(t) for t in sec[1].split()]
+            rx = re.compile(r'\s*'.join(toks) + r'\s*\?')
+            tm = code_mask(text)
+            hits = [m for m in rx.finditer(text) if tm[m.start()]]
+            if not hits:
+                raise AnchorLost('%s: `%s?` not found' % (fn_id, sec[1]))
+            for m in reversed(hits):
+                new = '(match %s { Ok(vx_v) => vx_v, Err(vx_e) => return Err(core::convert::From::from(vx_e)) })' % text[m.start():m.end() - 1].strip()
+                unit.rule_log.append({'rule': 'R12', 'before': norm_ws(m.group(0)), 'after': norm_ws(new)[:100], 'where': ctx})
+                text = text[:m.start()] + new.replace('\n', ' ') + '\n' * m.group(0).count('\n') + text[m.end():]
     sig_end, has_body = _find_fn_parts(text)
     sig = text[:sig_end]
     body = text[sig_end:]
